@@ -69,7 +69,9 @@ func (h *encHooks) writerName(fn *ssa.Function) string {
 	if pt, ok := recv.Type().(*types.Pointer); ok && types.Identical(pt.Elem(), h.bufT) {
 		// the number and colour writers (encodeXxx) are summarised; other methods of the buffer type are plain
 		// helpers (byte-order helpers and the like) and are entered like any other function
-		if strings.HasPrefix(fn.Name(), "encode") {
+		// the writers are the ones the codec pairing table knows (plus the shared 4-byte float form); anything else
+		// on the buffer type is a helper and is entered like any other function
+		if _, known := writerPairs[fn.Name()]; known || fn.Name() == "encode4ByteReal" {
 			return fn.Name()
 		}
 	}
